@@ -6,6 +6,7 @@ import (
 	"encoding/binary"
 	"errors"
 	"fmt"
+	"hash/fnv"
 	"reflect"
 	"sort"
 	"strings"
@@ -74,14 +75,18 @@ var forcedOp = -1
 
 // genCodecOp draws an operation and its private input.
 func genCodecOp() codecOp {
-	nk := 14
+	nk := 16
 	if len(registry.Types) == 0 {
-		nk = 10
+		nk = 12
 	}
 	op := ch("c18.op", nk)
 	if forcedOp >= 0 {
 		op = forcedOp % nk
 	}
+	return genCodecOpKind(op)
+}
+
+func genCodecOpKind(op int) codecOp {
 	switch op {
 	case 8:
 		// several callers decode their own records through ONE binary.Reader over a shared buffer
@@ -104,6 +109,87 @@ func genCodecOp() codecOp {
 					return "", err
 				}
 				return fmt.Sprintf("%d %x", end-off, ref.Encode(nil, v)), nil
+			})
+		}}
+	case 11:
+		if p := map[bool]float64{false: 0.25, true: 0.8}[forcedOp >= 0]; !simrt.Flip("c18.large-binary", p) {
+			return genCodecOpKind(1)
+		}
+		// a binary beyond the size up to which the reader allocates at once, held for a
+		// while after the read returns: what was read stays what it was
+		n := 1<<20 + 1 + ch("c18.large-extra", 4096)
+		mul := byte(1 + 2*ch("c18.large-fill", 120))
+		b := make([]byte, 4+n)
+		binary.BigEndian.PutUint32(b, uint32(n))
+		for i := 0; i < n; i += 64 {
+			b[4+i] = byte(i/64) * mul
+		}
+		sum := func(p []byte) string {
+			h := fnv.New64a()
+			h.Write(p)
+			return fmt.Sprintf("%d bytes, fnv %x", len(p), h.Sum64())
+		}
+		want := sum(b[4:])
+		viaValue := ch("c18.large-via", 2) == 1
+		hold := 1 + ch("c18.large-hold", 4)
+		return codecOp{"large binary read and held", func() string {
+			return resultOf(func() (string, error) {
+				var got []byte
+				if viaValue {
+					w, err := tbinary.Default.Decode(simio.NewReaderAt(b, fullPlan), wire.TBinary)
+					if err != nil {
+						return "", err
+					}
+					got = w.GetBinary()
+				} else {
+					r, _ := simio.NewReader(b, simio.Plan{TruncAt: -1, ErrAt: -1})
+					sr := tbinary.NewStreamReader(r)
+					bs, err := sr.ReadBinary()
+					sr.Close()
+					if err != nil {
+						return "", err
+					}
+					got = bs
+				}
+				for i := 0; i < hold; i++ {
+					simrt.YieldNow()
+				}
+				if s := sum(got); s != want {
+					return fmt.Sprintf("read %s, the input holds %s", s, want), nil
+				}
+				return want, nil
+			})
+		}}
+	case 10:
+		// a decoded value is written out more than once (forwarded, retried after a failed
+		// write) and read afterwards: encoding does not use it up
+		t := genType()
+		b := ref.Encode(nil, genVal(t, 0, genOpts{maxDepth: 3}))
+		n := 1 + ch("c18.re-encodes", 3)
+		failFirst := simrt.Flip("c18.first-write-fails", 0.3)
+		return codecOp{"Decode, Encode several times, force", func() string {
+			return resultOf(func() (string, error) {
+				w, err := tbinary.Default.Decode(simio.NewReaderAt(b, fullPlan), wire.Type(t))
+				if err != nil {
+					return "", err
+				}
+				var outs []string
+				for i := 0; i < n; i++ {
+					out := simio.NewWriter(-1)
+					if i == 0 && failFirst {
+						out = simio.NewWriter(len(b) / 2)
+					}
+					if err := tbinary.Default.Encode(w, out); err != nil {
+						outs = append(outs, "failed")
+						continue
+					}
+					outs = append(outs, fmt.Sprintf("%x", out.Buf))
+				}
+				v, err := refwire.Force(w)
+				if err != nil {
+					return "", err
+				}
+				return fmt.Sprintf("%v then %x", outs, ref.Encode(nil, v)), nil
 			})
 		}}
 	case 9:
